@@ -91,6 +91,17 @@ func (g *gen) trav(shape string) *lib.Node {
 	return n
 }
 
+// rootOf is the root variable name of a traversal node.
+func rootOf(t *lib.Node) string {
+	for t != nil && t.K != "var" && len(t.Kids) > 0 {
+		t = t.Kids[0]
+	}
+	if t != nil && t.K == "var" {
+		return t.S
+	}
+	return "fv"
+}
+
 func (g *gen) filler() *lib.Node { return g.eg.Expr(g.r.Intn(2)) }
 
 func tlit(s string) *lib.Node { return &lib.Node{K: "tlit", S: s} }
@@ -222,6 +233,12 @@ var positions = []position{
 	}},
 	{"for-coll", func(g *gen, t *lib.Node) *lib.Node {
 		n := &lib.Node{K: "fortuple", S: "fv", Kids: []*lib.Node{t, {K: "var", S: "fv"}}}
+		if g.r.Chance(1, 4) {
+			// the iterator carries the name of the variable the collection is taken from: inside the
+			// collection expression the name still means the outer variable
+			n.S = rootOf(t)
+			n.Kids[1] = &lib.Node{K: "var", S: n.S}
+		}
 		if g.r.Chance(1, 2) {
 			n.S2 = "fk"
 		}
@@ -238,7 +255,12 @@ var positions = []position{
 		return &lib.Node{K: "fortuple", S: "fv", Kids: []*lib.Node{g.filler(), {K: "var", S: "fv"}, t}}
 	}},
 	{"forobj-coll", func(g *gen, t *lib.Node) *lib.Node {
-		return &lib.Node{K: "forobj", S: "fv", S2: "fk", Kids: []*lib.Node{t, {K: "var", S: "fk"}, {K: "var", S: "fv"}}}
+		n := &lib.Node{K: "forobj", S: "fv", S2: "fk", Kids: []*lib.Node{t, {K: "var", S: "fk"}, {K: "var", S: "fv"}}}
+		if g.r.Chance(1, 4) {
+			n.S = rootOf(t)
+			n.Kids[2] = &lib.Node{K: "var", S: n.S}
+		}
+		return n
 	}},
 	{"forobj-key", func(g *gen, t *lib.Node) *lib.Node {
 		return &lib.Node{K: "forobj", S: "fv", Kids: []*lib.Node{g.filler(), t, {K: "var", S: "fv"}}, Flag: g.r.Chance(1, 3)}
